@@ -38,6 +38,9 @@ func TestSweep(t *testing.T) {
 		for _, ch := range []int{2, 3, 8} {
 			Oracle.One(t, env, rec, "sweep", &Case{S: e.S.Name, D: e.D.Name, Xs: vals(Bounds(e)), Ch: ch})
 		}
+		// long and wide at once: more channels than 8 and more samples than 2^15 / 2^16
+		Oracle.One(t, env, rec, "sweep", &Case{S: e.S.Name, D: e.D.Name, Xs: vals(Bounds(e)), Pad: 40000, Ch: 12})
+		Oracle.One(t, env, rec, "sweep", &Case{S: e.S.Name, D: e.D.Name, Xs: vals(Bounds(e)), Pad: 70001, Ch: 64, Fix: 1})
 		Oracle.One(t, env, rec, "sweep", &Case{S: e.S.Name, D: e.D.Name, Xs: vals(Bounds(e)), Fix: 3}) // buffers recycled through a pool
 		if e.S.Bits == 64 {
 			// float32-exact inputs at every quantisation step of 8-bit (and a stride of 16-bit) destinations, each with its float64 neighbours
